@@ -8,8 +8,10 @@ for l in open('/verif/properties.jsonl'):
     if p['id'] == pid:
         rec = p
 assert rec
-wt = f"/tmp/wt/{pid}"
-out = f"/tmp/seed_out/{pid}"
+name = sys.argv[2] if len(sys.argv) > 2 else pid
+avoid = sys.argv[3] if len(sys.argv) > 3 else ""
+wt = f"/tmp/wt/{name}"
+out = f"/tmp/seed_out/{name}"
 print(f"""You are helping to evaluate a verification effort for rust-lang/chalk (a Rust trait-system solver). Your job: craft ONE realistic, subtle code change to chalk that BREAKS the semantic property below, while the code still compiles and the whole existing test suite still passes.
 
 ## The property (id {pid})
@@ -34,5 +36,7 @@ Mechanisms meant to make it hold: {json.dumps(rec['anchors'].get('mechanism', []
 - It must need something SPECIFIC to manifest: a particular interleaving or history of calls, a crash/fault at a particular point, a multi-step sequence of operations, an unusual input shape, or two cooperating sites that each look fine alone. A change that ordinary use would expose at once (or that any of the existing tests catch) is not what we want.
 - Keep it small (typically 1-15 changed lines in 1-2 files).
 - The demonstration must really exercise the property as stated (through chalk's public API or test macros), fail with the patch and pass without it. Confirm both yourself.
+
+{("- Somebody else already produced this change for the same property; yours must be a DIFFERENT one (different site / different mechanism): " + avoid) if avoid else ""}
 
 When finished, make sure `git -C {wt} diff` still shows exactly your source change (the demo may be present too, but patch.diff must contain only the source change), and reply with a short summary: files changed, what is needed to manifest, and the exact commands you ran with their outcomes.""")
